@@ -190,7 +190,31 @@ def main(argv=None):
         print('replay: property held')
         return 0
 
-    res = mod.run(ctx)
+    try:
+        res = mod.run(ctx)
+    except Exception:
+        # An exception that escaped from the code under test (a frame inside
+        # the built pysph tree or inside a generated extension module) while
+        # an enumerated case was running is that case failing, not a harness
+        # error: report it as a violation with the traceback as witness.
+        # Anything else (a bug in /verif) stays an error of the check (rc 3).
+        import re
+        tb = traceback.format_exc()
+        inside = (os.path.join(work, 'pysph') + os.sep in tb or
+                  re.search(r'\bm_[0-9a-f]{32}\.pyx', tb))
+        if not inside:
+            raise
+        last = tb.strip().splitlines()[-1][:200]
+        frames = re.findall(r'File "[^"]*[/\\](pysph[/\\][^"]+)", line \d+, in (\w+)', tb)
+        where = '%s:%s' % frames[-1] if frames else 'generated-code'
+        v = Violation('exception-in-code-under-test:%s' % where,
+                      'the exploration stopped because the code under test '
+                      'raised: %s' % last, dict(traceback=tb[-4000:]))
+        res = Result('other', dict(exhaustive=False, aborted=True,
+                                   reason='exception in code under test',
+                                   explanation='aborted run: ' + last),
+                     ['the run was aborted by an exception raised inside '
+                      'pysph; nothing beyond that point was explored'], [v])
     wall = time.time() - t0
     build.prune_code_cache(home)
 
